@@ -434,7 +434,8 @@ def run(ctx: Ctx) -> int:
             ctx.sample(s)
     need = {"reject:ValueError", "array_reject:ValueError"}
     if not need <= outcomes and not os.environ.get("VERIF_ONLY_SHARDS"):
-        raise HarnessError(f"vacuous: never saw {sorted(need - outcomes)}")
+        # from the classes under test; a class that stopped rejecting is reported as a violation, which takes precedence
+        ctx.vacuity(f"never saw {sorted(need - outcomes)}", hard=True)
     ctx.stats.update(types=sum(r["types"] for r in results), union_states=sum(r["states"] for r in results), union_transitions=sum(r["transitions"] for r in results), outcome_classes=sorted(outcomes))
     cov = {
         "evaluations": sum(r["evals"] for r in results) + sum(r["transitions"] for r in results),
